@@ -1065,9 +1065,9 @@ def tier_plan(tier, seed):
         for kind in FS_KINDS:
             mem = kind == "MemoryFS"
             if mem:
-                params = dict(bound=2, cap1=100, cap2=20, random=30, uniform=4)
+                params = dict(bound=2, cap1=84, cap2=16, random=26, uniform=4)
             else:
-                params = dict(bound=1, cap1=24, cap2=0, random=12, uniform=0)
+                params = dict(bound=1, cap1=20, cap2=0, random=10, uniform=0)
             plan.append((pair_cases(kind, tier, seed), params))
             plan.append((multi_cases(kind, seed, 400 if mem else 120),
                          dict(bound=1, cap1=60, cap2=0, random=60, uniform=10)))
